@@ -124,7 +124,7 @@ def run(rep, tier):
                       "continued (flag o), forward from the rdf maximum to the end and backward to the start; Boltzmann inversion -kBT ln(P/norm), "
                       "norm in {1, x^2, sin x}, nan/u where P <= dist_min; linearop a*y+b (errors a*err); shift y - zero with zero the minimum over "
                       "flagged points (bonded) / last point (non-bonded); smoothing (1/4,1/2,1/4) interior and (2y0+y1)/3 ends, only for flag i; "
-                      "integration by the trapezoid recurrence")
+                      "integration by the trapezoid recurrence; scaling y * (p1 + (p2 - p1) w) with w linear from 0 at the first to 1 at the last point")
     rep.rule("R19.2", "pass-through: the x array and the flag array written by saveto_table* are the ones filled by readin_table* (grid and flags preserved)")
     scripts = ["update_ibi_pot.pl", "dist_boltzmann_invert.pl", "table_linearop.pl", "potential_shift.pl", "table_smooth.pl", "table_integrate.pl"]
     rep.units = [front.repo(DIR + s_) for s_ in scripts]
@@ -136,7 +136,9 @@ def run(rep, tier):
     check_shift(rep)
     check_smooth(rep)
     check_integrate(rep)
-    rep.assumptions += ["shell wrappers (csg_table, csg_call), table_combine/scale/extrapolate and csg_resample's differentiation are not covered",
+    check_scale(rep)
+    rep.units = list(rep.units) + [front.repo(DIR + "table_scale.pl")]
+    rep.assumptions += ["shell wrappers (csg_table, csg_call), table_combine/extrapolate and csg_resample's differentiation are not covered",
                         "integration and differentiation being mutually inverse up to discretisation error is numerical: not decided",
                         "CsgFunctions.pm's readin/saveto column order is trusted (its parsing loops are not folded)"]
 
@@ -535,3 +537,41 @@ def passthrough(rep, sc, xarr, flagarr, written_flag=None):
     elif written_flag:
         rep.check(all(("@" + written_flag) in c["arg_names"] for c in saves), "R19.2", "flags|" + sc.name, "script writes its own flag array @%s" % written_flag,
                   "%s saves flags %s" % (sc.name, [c["arg_names"] for c in saves]), sc.loc)
+
+
+# ------------------------------------------------------------------------------------------------ table_scale.pl
+def check_scale(rep):
+    sc = Script(rep, "table_scale.pl")
+    ro = roles(sc)
+    X, Y, YO = ro["x"], ro["y"], ro["yout"]
+    P1, P2 = S(argv_scalar(sc, 2)), S(argv_scalar(sc, 3))
+    st = sc.stores(YO)
+    ok, why = len(st) == 1 and not isinstance(st[0]["value"], tuple), "expected one assignment per point, found %d" % len(st)
+    if ok:
+        e = st[0]
+        i = e["idx"][0]
+        inner = PF.inner(e)
+        lid = sc.loop_of(e)
+        b = sc.bounds(lid) if lid else None
+        ok = not inner["guards"] and not inner["not"] and b is not None and b[0] == 0 and is_last(b[1], ro) and b[2] == 1
+        why = "the scaling loop does not run unconditionally over all points 0..last"
+    if ok:
+        LAST = S("_LAST")
+        canon = lambda v: v.replace(lambda x: is_last(x, ro), lambda x: LAST) if isinstance(v, sp.Basic) else v
+        val = canon(e["value"])
+        y = el(Y, i)
+        fac = sp.simplify(val / y)
+        ok, why = not fac.has(y), "the new value %s is not the old value times a prefactor" % str(val)[:160]
+    if ok:
+        # fac = p1 + (p2 - p1) w: w is read off, then its end points and its linearity (in the index or in the abscissa) are checked
+        w = sp.simplify((fac - P1) / (P2 - P1))
+        ok, why = not w.has(P1) and not w.has(P2), "the prefactor %s is not a linear interpolation between the two prefactors" % fac
+    if ok:
+        xi = lambda k: el(X, k)
+        w_idx = i / LAST
+        w_x = (xi(i) - xi(sp.Integer(0))) / (xi(LAST) - xi(sp.Integer(0)))
+        ok = sp.simplify(w - w_idx) == 0 or sp.simplify(w - w_x) == 0
+        w0, w1 = sp.simplify(w.subs(i, 0)), sp.simplify(w.subs(i, LAST))
+        why = "the interpolation weight is %s: it is %s at the first point (required 0, i.e. exactly prefactor1) and %s at the last point (required 1, i.e. exactly prefactor2)" % (w, w0, w1)
+    rep.check(ok, "R19.1", "scale|formula", "y' = y (p1 + (p2 - p1) w), w = 0 at the first and 1 at the last point, linear in between", "table_scale.pl: " + why, sc.loc, sample=True)
+    passthrough(rep, sc, ro["x"], ro["flag"])
